@@ -56,7 +56,7 @@ let apply_op_h (o : nat obs) (hm : (int * int) list) (r : rec_op) : (nat obs * (
   end else None
 
 let apply_op (o : nat obs) (r : rec_op) : nat obs option =
-  let one (o : nat obs) (x : nat op) (expect : string) : nat obs option =
+  let one (o : nat obs) x (expect : string) : nat obs option =
     match step veq heq vdefault o x with
     | Panic -> None
     | Ok ((o', out), _) -> if M_obs.show_out "" out = expect then Some o' else None in
